@@ -3,6 +3,7 @@
    _epsilon): inside the code's guard 0 < |v|^2 <= eps the code drops the (gamma-1)/beta^2 term, so its boost
    is not an exact Lorentz boost there (deviation <= |v|^3 |p| / 2); v = 0 is covered by C11_boost_zero. *)
 From Coq Require Import Reals List Lra.
+From Interval Require Import Tactic.
 From TFV Require Import Base.RBase Kin.Boost Kin.Boost_proofs Kin.Angles Kin.Angles_proofs Kin.Dalitz Kin.Dalitz_proofs.
 Import ListNotations.
 Open Scope R_scope.
@@ -131,3 +132,9 @@ Example C11_vel_ok_example : vel_ok (V3 (1/2) 0 0).
 Proof. unfold vel_ok, norm2_3, dot3, eps; cbn; lra. Qed.
 Example C11_rotation_example : rotation id3.
 Proof. exact rotation_id3. Qed.
+(* the hypotheses of the cascade theorem are satisfiable: a branching-free 3-body cascade with a massless final particle *)
+Example C11_tree_ok_example :
+  tree_ok 1 (DNode 2 (1/2) 1 (DNode 1 (-1/3) 2 (DLeaf (1/4)) (DLeaf 0)) (DLeaf (1/4))).
+Proof.
+  cbn [tree_ok dmass]. unfold rel_p, rmax, eps. repeat split; try lra; try interval.
+Qed.
